@@ -69,3 +69,52 @@ def wait_uses_seconds(state):
 
 def wait_uses_timestamp(state):
     return True if (not state.get("Seconds") and not state.get("SecondsPath") and state.get("Timestamp")) else False
+
+
+# ---------------------------------------------------------------------------------------------------------------
+# Retry / Catch (https://states-language.net/spec.html#errors)
+# "...scans through the Retriers in array order ... the first one whose ErrorEquals contains the Error Name ..."
+# "States.ALL is a wildcard which matches any Error Name [it must appear alone]"; States.TaskFailed is treated by
+# this engine (as by AWS) as a wildcard for task failures.  Unrecoverable: States.Runtime, the engine's
+# States.ExecutionTimeout and Task.Terminated are neither retried nor caught.
+# ---------------------------------------------------------------------------------------------------------------
+
+def err_unrecoverable(error_type):
+    return error_type == "States.Runtime" or error_type == "States.ExecutionTimeout" or error_type == "Task.Terminated"
+
+
+def err_matches(rule, error_type):
+    ee = rule.get("ErrorEquals")
+    return (error_type in ee) or ("States.TaskFailed" in ee) or (len(ee) == 1 and ee[0] == "States.ALL")
+
+
+def rule_list(state, field):
+    """the Retry / Catch array of the state, [] when absent (or not a non-empty array)"""
+    v = state.get(field)
+    if v and islist(v):
+        return v
+    return []
+
+
+def first_match(rules, error_type):
+    """index of the first rule that matches, -1 if none (arrays of up to 3 rules: the verified bound)"""
+    if len(rules) > 0 and err_matches(rules[0], error_type):
+        return 0
+    if len(rules) > 1 and err_matches(rules[1], error_type):
+        return 1
+    if len(rules) > 2 and err_matches(rules[2], error_type):
+        return 2
+    return -1
+
+
+def retry_allowed(retrier, retry_count):
+    """at most MaxAttempts retries (default 3; 0 means never)"""
+    return retry_count < retrier.get("MaxAttempts", 3)
+
+
+def retry_delay_ms(retrier, retry_count):
+    """IntervalSeconds x BackoffRate^k seconds before the k-th retry (defaults 1 and 2.0; rate at least 1)"""
+    rate = retrier.get("BackoffRate", 2.0)
+    if rate < 1.0:
+        rate = 1.0
+    return retrier.get("IntervalSeconds", 1) * upow(rate, retry_count) * 1000
